@@ -87,6 +87,28 @@ Check inverse_correct_lists : forall q, Znumtheory.prime q -> forall n m, (0 < n
                  mat_mul q m' m = mat_id n & mat_mul q m m' = mat_id n].
 Print Assumptions inverse_correct_lists.
 
+(** The singular case of [matrix_inverse], exactly: the determinant is the value 0 ([bareiss_singular_zero]) and the one
+    failure is the [unwrap] of [Scalar::invert] on it -- no arithmetic failure inside the elimination, for any size. *)
+Theorem inverse_singular_is_unwrap_panic : forall q n m, wf_mat q n m ->
+  bareiss q m n = Val 0%Z -> matrix_inverse q m n = Panic P_UNWRAP_INV.
+Proof. exact inverse_singular. Qed.
+Check inverse_singular_is_unwrap_panic : forall q n m, wf_mat q n m ->
+  bareiss q m n = Val 0%Z -> matrix_inverse q m n = Panic P_UNWRAP_INV.
+Print Assumptions inverse_singular_is_unwrap_panic.
+
+(** The returned matrix is THE inverse: any well-shaped left or right inverse of m equals it (so "M' * M = 1" pins
+    every entry of the result, not just a relation). *)
+Theorem inverse_is_unique : forall q, Znumtheory.prime q -> forall n m m' x, (0 < n)%coq_nat ->
+  wf_mat q n m -> wf_mat q n m' -> wf_mat q n x ->
+  mat_mul q m' m = mat_id n -> mat_mul q m m' = mat_id n ->
+  (mat_mul q x m = mat_id n \/ mat_mul q m x = mat_id n) -> x = m'.
+Proof. exact inverse_unique. Qed.
+Check inverse_is_unique : forall q, Znumtheory.prime q -> forall n m m' x, (0 < n)%coq_nat ->
+  wf_mat q n m -> wf_mat q n m' -> wf_mat q n x ->
+  mat_mul q m' m = mat_id n -> mat_mul q m m' = mat_id n ->
+  (mat_mul q x m = mat_id n \/ mat_mul q m x = mat_id n) -> x = m'.
+Print Assumptions inverse_is_unique.
+
 (** Anchor for the abstraction: on 2 x 2 matrices the computed determinant is a*d - b*c modulo q, stated over Z only. *)
 Theorem bareiss_2x2_closed_form : forall q, Znumtheory.prime q -> forall a b c d,
   (0 <= a < q)%Z -> (0 <= b < q)%Z -> (0 <= c < q)%Z -> (0 <= d < q)%Z ->
